@@ -12,7 +12,7 @@ def classify_crash(cr):
 
 SPEC = {
     'id': 'C15',
-    'lean_modules': ['AITB.Props.C15', 'AITB.Props.C15Gen', 'AITB.Props.C15Top', 'AITB.Props.C15Mdp', 'AITB.Props.C15Cex', 'AITB.Props.C15Flat', 'AITB.Props.C15Clean'],
+    'lean_modules': ['AITB.Props.C15', 'AITB.Props.C15Gen', 'AITB.Props.C15Top', 'AITB.Props.C15Mdp', 'AITB.Props.C15Cex', 'AITB.Props.C15Flat', 'AITB.Props.C15Clean', 'AITB.Props.C15Facts'],
     'theorems': [
         'AITB.FLP.weak_duality_sound',
         'AITB.FLP.optimalPair_sound',
@@ -62,6 +62,7 @@ SPEC = {
         'AITB.FLP.genLoop_clean',
         'AITB.FLP.flpGen_clean',
         'AITB.FLP.mdpGen_clean',
+        'AITB.FLP.gen_facts_hold',
     ],
     'harness': 'harness/c15.cpp',
     # the calls LpSolveWrapper.cpp makes into lp_solve are recorded at link time (the library is not modified)
